@@ -70,7 +70,7 @@ def _read_last_cached_time(cache_folder):
         with open(timestamp_filename, "r") as f:
             timestamp = float(f.readline())
             return timestamp
-    except FileNotFoundError or ValueError or IOError:
+    except (FileNotFoundError, ValueError, IOError):
         return 0
 
 
